@@ -222,7 +222,8 @@ def run(ck):
             x = rng.random()
             if x < 0.45 and depth < 4:
                 u = rng.choice(eunits) if rng.random() < 0.93 else "furlong"
-                nodes.append(("with", u, gen_nodes(depth + 1), rng.random() < 0.4))
+                # the context object may be created long before it is entered (as ex_006_Absorption_1 does)
+                nodes.append(["with", u, gen_nodes(depth + 1), rng.random() < 0.4, rng.random() < 0.35 and u != "furlong", None])
             elif x < 0.6:
                 nodes.append(("raise",))
             elif x < 0.85:
@@ -233,17 +234,21 @@ def run(ck):
                 nodes.append(("rawbad",))
         return nodes
 
-    stats = {"maxdepth": 0, "raises": 0, "calls": 0}
+    stats = {"maxdepth": 0, "raises": 0, "calls": 0, "precreated": 0}
+
+    def strip(nodes):
+        return [[nd[0], nd[1], strip(nd[2]), nd[3], nd[4]] if nd[0] == "with" else list(nd) for nd in nodes]
 
     def run_nodes(nodes, depth, prog):
         for nd in nodes:
             if nd[0] == "with":
                 try:
-                    ctx = energy_units(nd[1])
+                    ctx = nd[5] if nd[5] is not None else energy_units(nd[1])
                 except Exception:
                     emit("enter %s" % nd[1], "refused " + state())
                     continue
                 stats["maxdepth"] = max(stats["maxdepth"], depth + 1)
+                outer_units = m.get_current_units("energy")
                 try:
                     try:
                         with ctx:
@@ -251,6 +256,11 @@ def run(ck):
                             run_nodes(nd[2], depth + 1, prog)
                     finally:
                         emit("exit", "ok " + state())
+                        if m.get_current_units("energy") != outer_units:
+                            ck.fail("contexts:exit", "leaving a units context did not restore the units active when it was entered",
+                                    {"program": strip(prog), "entered_with": nd[1], "precreated": bool(nd[4])},
+                                    m.get_current_units("energy"), outer_units)
+                            m.current_units["energy"] = outer_units
                 except Boom:
                     if not nd[3]:
                         raise
@@ -268,7 +278,7 @@ def run(ck):
                 after = state()
                 if before != after:
                     ck.fail("call:%s" % name, "library call changed the active units of its caller",
-                            {"call": name, "program": prog}, after, before)
+                            {"call": name, "program": strip(prog)}, after, before)
                     # put the manager back so that the rest of the program stays comparable
                     m.current_units["energy"] = before.split()[0]
             elif nd[0] == "raw":
@@ -288,7 +298,16 @@ def run(ck):
         m._in_energy_units_context = False
         emit("reset %s" % start, state())
         prog = gen_nodes(0)
-        stats.update(maxdepth=0, raises=0, calls=0)
+        stats.update(maxdepth=0, raises=0, calls=0, precreated=0)
+
+        def precreate(nodes):
+            for nd in nodes:
+                if nd[0] == "with":
+                    if nd[4]:
+                        nd[5] = energy_units(nd[1])
+                        stats["precreated"] += 1
+                    precreate(nd[2])
+        precreate(prog)
         try:
             run_nodes(prog, 0, prog)
         except Boom:
@@ -296,10 +315,10 @@ def run(ck):
         end = state()
         if end != "%s 0 0" % start:
             ck.fail("contexts:restore", "units / nesting bookkeeping not restored after a nested program of contexts",
-                    {"program": prog, "start": start}, end, "%s 0 0" % start)
-        ck.case(repr(prog), nontrivial=(stats["maxdepth"] >= 2 and (stats["raises"] or stats["calls"])),
+                    {"program": strip(prog), "start": start}, end, "%s 0 0" % start)
+        ck.case(repr(strip(prog)), nontrivial=(stats["maxdepth"] >= 2 and (stats["raises"] or stats["calls"])),
                 nesting=stats["maxdepth"], raises=min(stats["raises"], 2), calls=min(stats["calls"], 3),
-                sample={"program": prog} if h < 2 else None)
+                precreated=min(stats["precreated"], 2), sample={"program": strip(prog)} if h < 2 else None)
     m.current_units["energy"] = "1/fs"
     model = ck.drive(DRIVER, lines)
     if model is not None:
